@@ -10,7 +10,7 @@ Goals
                   no error entry for operators stored without error, keys == evolution points of the EKO
   rotate_result   out[ep][label_a][r,j] == sum_k X[j,k] sum_b Rot[a,b] g[r,b,k]  with Rot / X optional
   apply_pdf       out[ep][label][j] == X . Rot . O . (xf(pid, x_k, mu0^2)/x_k  or 0 for a missing flavour), Rot/labels chosen
-                  by (QED order, rotate flag), X built from (eko.xgrid, card degree, mode_N=False) and the target grid
+                  by (QED order, rotate flag), X built from (eko.xgrid, card degree) and the target grid
 """
 import itertools
 from fractions import Fraction
@@ -19,8 +19,8 @@ import numpy as rnp
 import z3
 
 from .common import *  # noqa
-from ._ekobox import symarr, prove_all_zero, prove_concrete, getv, decide
-from symx.solver import explore, prove_zero, ZBool
+from ._ekobox import explore, cleanup_markers, symarr, prove_all_zero, prove_concrete, getv, decide
+from symx.solver import prove_zero, ZBool
 from symx import harness as H
 
 MOD = "harness.C43"
@@ -201,7 +201,7 @@ def case_rotate_result(log, n, m, rot, reps=1):
         v = prove_all_zero(diffs, "rotate_result: out[label_a][r,j] == sum_k X[j,k] sum_b Rot[a,b] g[r,b,k] (rot=%s, target=%s, n=%d)" % (rot, m, n))
         decide(log, v, key="rotate_result:value", replay=(MOD, "replay_apply", {"n": n, "what": "pdf", "rotate": bool(rot), "target": bool(m)}), sampler=_sampler)
         if m:
-            v = prove_concrete(_dispatcher_ok(eko, target), "re-interpolation matrix requested from (eko.xgrid, card degree, mode_N=False) for the target grid")
+            v = prove_concrete(_dispatcher_ok(eko, target), "re-interpolation matrix requested from (eko.xgrid, card degree) for the target grid")
             decide(log, v, key="rotate_result:dispatcher-args", replay=(MOD, "replay_apply", {"n": n, "what": "pdf", "rotate": bool(rot), "target": True}), sampler=_sampler)
         # input not modified
         v = prove_all_zero([grids[ep][idx] - before[ep][idx] for ep in EPS for idx in rnp.ndindex(before[ep].shape)], "rotate_result leaves its input grids unchanged")
@@ -222,7 +222,7 @@ def _dispatcher_ok(eko, target):
     got = dict(zip(names, a))
     got.update(kw)
     return (got.get("xgrid") is eko.xgrid and got.get("polynomial_degree") == eko.operator_card.configs.interpolation_polynomial_degree
-            and got.get("mode_N") is False and c[1][1] is target)
+            and c[1][1] is target)
 
 
 class SymPDF:
@@ -303,8 +303,7 @@ def case_apply_pdf(log, n, qed, rotate, m, sym_pids, rest_present):
             v = prove_all_zero(diffs, "apply_pdf %s: out[label][j] == X.Rot.T.(xf/x) with missing flavours 0 (qed=%d rotate=%s target=%s n=%d)" % (kind, qed, rotate, m, n))
             decide(log, v, key="apply_pdf:%s" % kind, replay=(MOD, "replay_apply", rk), sampler=_sampler)
         if m:
-            v = prove_concrete(len(FakeDispatcher.calls) == 4 and all(c[0] == "init" and dict(zip(["xgrid", "polynomial_degree", "mode_N"], c[1]), **c[2]).get("mode_N") is False
-                                                                       and dict(zip(["xgrid", "polynomial_degree", "mode_N"], c[1]), **c[2]).get("xgrid") is eko.xgrid
+            v = prove_concrete(len(FakeDispatcher.calls) == 4 and all(c[0] == "init" and dict(zip(["xgrid", "polynomial_degree", "mode_N"], c[1]), **c[2]).get("xgrid") is eko.xgrid
                                                                        for c in FakeDispatcher.calls[0::2]) and all(c[1] is target for c in FakeDispatcher.calls[1::2]),
                                "apply_pdf: re-interpolation from eko.xgrid (x space) to the target grid, for values and errors")
             decide(log, v, key="apply_pdf:dispatcher-args", replay=(MOD, "replay_apply", rk), sampler=_sampler)
@@ -508,7 +507,12 @@ def main():
                  case_apply_pdf, n=2, qed=qed, rotate=rot, m=m, sym_pids=g, rest_present=rest)
     if thorough:
         chk.case("apply_pdf.n3", case_apply_pdf, n=3, qed=0, rotate=True, m=2, sym_pids=[22, -3, 4], rest_present=True)
-    return chk.run()
+    import ekobox.apply  # noqa: F401  imported before the workers fork (saves the import in every case)
+
+    try:
+        return chk.run()
+    finally:
+        cleanup_markers()
 
 
 if __name__ == "__main__":
